@@ -53,6 +53,12 @@ def mk_values(it, prog):
     cm.call_method(it, sl2, 'load_uint', K(5))
     cm.call_method(it, sl2, 'load_ref')
     vals['slice (partly consumed)'] = sl2
+    # a slice that holds references only (no data bits), untouched and with its first reference consumed
+    vals['slice (no bits, two references)'] = cm.call_method(it, cm.new_cell(it, cm.tvm_bits(it, BA([])), [kleaf('1001'), kleaf('0110')]), 'begin_parse')
+    sl3 = cm.call_method(it, cm.new_cell(it, cm.tvm_bits(it, BA([Seg(3, 'k', '101')])), [kleaf('11'), kleaf('00'), kleaf('10')]), 'begin_parse')
+    cm.call_method(it, sl3, 'load_uint', K(3))
+    cm.call_method(it, sl3, 'load_ref')
+    vals['slice (bits consumed, two references left)'] = sl3
     b = it.construct(prog.cls('Builder'), [], {})
     cm.call_method(it, b, 'store_uint', K(0xABC), K(12))
     vals['builder'] = b
